@@ -75,6 +75,8 @@ type AdminMut struct {
 	Kind   string      `json:"kind"` // cancel requeue resume dlq_requeue dlq_delete cancel_f requeue_f resume_f
 	IDRefs []int       `json:"id_refs,omitempty"`
 	Filter *FilterSpec `json:"filter,omitempty"`
+	// Scoped: 1 + index of the managed route whose endpoint-scoped by-filter path is used (0: the global path)
+	Scoped int `json:"scoped,omitempty"`
 }
 
 type PublishWorld struct {
@@ -554,7 +556,21 @@ func (w *PublishWorld) Mutate(m *AdminMut) {
 	var freq queue.MessageManageFilterRequest
 	if byFilter {
 		f := m.Filter
-		freq = queue.MessageManageFilterRequest{Route: f.Route, Target: f.Target, State: queue.State(f.State), Limit: f.Limit, PreviewOnly: f.Preview}
+		if m.Scoped > 0 && m.Scoped-1 < len(w.Spec.Routes) && w.Spec.Routes[m.Scoped-1].App != "" {
+			// endpoint-scoped path: the URL says which route is meant, the body
+			// carries the other criteria
+			sr := &w.Spec.Routes[m.Scoped-1]
+			path = "/applications/" + sr.App + "/endpoints/" + sr.Endpoint + strings.TrimPrefix(path, "") // /messages/<op>_by_filter
+			ff := *f
+			ff.Route = ""
+			f = &ff
+			loc += "/scoped"
+			w.Res.probe("admin.mutation.scoped_filter")
+			defer func(route string) { _ = route }(sr.Path)
+			freq = queue.MessageManageFilterRequest{Route: sr.Path, Target: f.Target, State: queue.State(f.State), Limit: f.Limit, PreviewOnly: f.Preview}
+		} else {
+			freq = queue.MessageManageFilterRequest{Route: f.Route, Target: f.Target, State: queue.State(f.State), Limit: f.Limit, PreviewOnly: f.Preview}
+		}
 		if f.Route != "" {
 			body["route"] = f.Route
 		}
@@ -904,6 +920,17 @@ func GenPublishProgram(t *rapid.T, mutations bool) *Program {
 				}
 				if cnt > 1 && rapid.IntRange(0, 3).Draw(t, "dupid") == 0 {
 					m.IDRefs[cnt-1] = m.IDRefs[0]
+				}
+			}
+			if strings.HasSuffix(m.Kind, "_f") {
+				var managed []int
+				for ri := range spec.Routes {
+					if spec.Routes[ri].App != "" {
+						managed = append(managed, ri)
+					}
+				}
+				if len(managed) > 0 && rapid.IntRange(0, 2).Draw(t, "scopedf?") == 1 {
+					m.Scoped = 1 + managed[rapid.IntRange(0, len(managed)-1).Draw(t, "scopedf")]
 				}
 			}
 			sys.Muts = append(sys.Muts, m)
